@@ -528,6 +528,10 @@ class DocGen:
             def mbody():
                 self.emit_text()          # never an empty `$$` (that would open display math)
                 self.body(depth, True, intab)
+            if not inmath and self.rng.random() < 0.15:
+                # a formula whose content expands to nothing, directly followed by the next formula: `$\\zzempty$$W$` is two
+                # inline formulas (the `$$` in the middle is a closing and an opening shift, not display math)
+                self.src.append('$\\zzempty$')
             self.src.append('$'); scoped(mbody); self.src.append('$ ')
         elif kind == 'arg':
             self.src.append(self.rng.choice(['\\mbox{', '\\textbf{', '\\emph{']))
@@ -555,7 +559,7 @@ class DocGen:
             self.src.append('\\end{tabular}')
 
     def make(self):
-        pre = '\\newcounter{cq}\\newif\\ifzz \\newcommand\\ncq{}\\newenvironment{nvq}{}{}\\newenvironment{nlq}{}{}\\let\\endnlq\\relax '
+        pre = '\\newcounter{cq}\\newif\\ifzz \\newcommand\\ncq{}\\newenvironment{nvq}{}{}\\newenvironment{nlq}{}{}\\let\\endnlq\\relax \\newcommand\\zzempty{}'
         for k in (1, 2, 3):
             w = self.word()
             pre += '\\gdef\\p%s{%s}' % ('abc'[k - 1], w)
